@@ -169,6 +169,35 @@ CLAIMED.update({
              "delimiters, each followed by a position and a nesting level on the same stream.",
         ref="DESIGN.md §3 C18", tech="TLA+ IprPrinter: control-state/outcome/number rules validated by TLC on a complete print sweep + TLC-enumerated statement trees",
         note="Trusted: TLC, spec/IprPrinter*.tla, harness/printer.cxx; default 8 MiB stack, 20 s per print."),
+    "C05": dict(
+        text="Decided with the trace specifications of IprMake, IprUnify and IprStrings on histories recorded for this purpose: "
+             "220 (quick) / 600 (thorough) calls over all 161 generative factories with unrelated growth of every store between "
+             "two steps; after every step every node returned so far is re-read through all its accessors, and the set of nodes "
+             "that read differently must equal the set whose expected observation changed in the specification (only explicit "
+             "link settings and appends do that: OnlyClientChanges / ChangedSince); every make_ result must be a fresh identity; "
+             "unified nodes and Strings are re-read at random later points (Stable, ContentStable).",
+        ref="DESIGN.md §3 C05", tech="TLA+ IprMake/IprUnify/IprStrings trace validation of histories with whole-graph re-observation after every step",
+        note="Trusted: TLC, the three trace specs, the observers. Identity = address. 'Stays valid' (no dangling storage) is "
+             "AddressSanitizer's observation (strings in quick; factory histories under ASan in thorough)."),
+    "C19": dict(
+        text="IprLedger.tla: the allocation ledger (Begin, Alloc of a fresh identity, Free of an outstanding one, End only when "
+             "the ledger is back to its state at Begin). Nine construction histories (up to the whole zoo built and printed, "
+             "string pools rolled over, two interleaved Lexicons) each run three times in one process with the global allocation "
+             "functions replaced; runs 2 and 3 are validated by IprLedgerTrace allocation by allocation (<= 400 allocations) or "
+             "by counters. IprLedgerMC is checked tight and with a forgetful owner (must violate) as a vacuity guard. ASan+LSan "
+             "runs of other recorders contribute their verdict as terminal events.",
+        ref="DESIGN.md §3 C19", tech="TLA+ IprLedger: allocation-ledger trace validation (operator new/delete replaced) + sanitizer verdicts as terminal events",
+        note="Trusted: TLC, spec/IprLedger*.tla, harness/ledger.cxx (ledger of operator new/delete), ASan/LSan for dead-storage "
+             "accesses. Histories are fixed scenarios plus seeds, not enumerated."),
+    "C20": dict(
+        text="IprThreads.tla: N processes with private tables obtain what they would obtain alone on every interleaving (TLC, 2-3 "
+             "processes), and a shared table violates it (vacuity guard). Runs with 2/4/8/16 threads, each building, declaring and "
+             "printing in its own Lexicon from a common start with random yields; every thread's trace is validated against the "
+             "sequential IprUnify specification (IprThreadsTrace), the Lexicons of a round stay alive until the join and must share "
+             "nothing but the constants; half of the runs under ThreadSanitizer, whose report is a terminal event.",
+        ref="DESIGN.md §3 C20", tech="TLA+ IprThreads/IprUnify: per-thread trace validation against the sequential spec + isolation event + TSan verdict as terminal event",
+        note="Trusted: TLC, the sequential trace spec, harness/threads.cxx, ThreadSanitizer on the schedules that occurred (schedules "
+             "of the C++ code are sampled, not enumerated)."),
 })
 
 ALL = ["C%02d" % i for i in range(1, 21)]
